@@ -107,6 +107,8 @@ func runC16(c *core.Ctx, idx int) {
 	// the entity does, whatever was refused in between
 	def := &schema.StoreDef{Type: "widgets", BasePath: []string{"stores"}, Ext: true, System: true,
 		Fields: []schema.Field{{Name: "name", Kind: schema.KStr}, {Name: "code", Kind: schema.KStr}, {Name: "labels", Kind: schema.KList},
+			// a field the strategy writes through a nested bucket of the entity (settings/zone): it follows the name
+			{Name: "zone", Kind: schema.KStr, Prefix: []string{"settings"}},
 			{Name: "pegs", Kind: schema.KList, FK: "pegs", Derived: true}, {Name: "rpegs", Kind: schema.KList, FK: "pegs", Derived: true}},
 		Unique: []schema.UniqueDef{{Field: "code", Nullable: true}}, SetIdx: []string{"labels"},
 		Links: []schema.LinkDef{{Field: "pegs", Target: "pegs", TargetField: "widgets"}, {Field: "rpegs", Target: "pegs", TargetField: "rwidgets", RefCounted: true}}}
@@ -242,7 +244,7 @@ func runC16(c *core.Ctx, idx int) {
 		switch op.Kind {
 		case "create", "update", "patch":
 			name := op.Name
-			e := &schema.Ent{Id: op.Id, Typ: "widgets", V: map[string]any{"name": name, "code": "code-" + op.Id, "labels": []string{"l-" + op.Id, "shared"}}}
+			e := &schema.Ent{Id: op.Id, Typ: "widgets", V: map[string]any{"name": name, "zone": "z-" + name, "code": "code-" + op.Id, "labels": []string{"l-" + op.Id, "shared"}}}
 			target := st
 			if op.Child {
 				target = kst
@@ -555,6 +557,9 @@ func runC16(c *core.Ctx, idx int) {
 				if hasKid != m.Child || (m.Child && extra != m.Extra) {
 					c.Violationf("C16 child-store part differs from the model", map[string]any{"history": tailC16(hist, 5), "id": id}, "entity %s: child data present %v (model %v), extra %q (model %q)", id, hasKid, m.Child, extra, m.Extra)
 				}
+				if zone, _ := e.V["zone"].(string); zone != "z-"+m.Name {
+					c.Violationf("C16 a field in a nested bucket of the entity differs from the model", map[string]any{"history": tailC16(hist, 5), "id": id}, "entity %s: settings/zone %q, expected %q", id, zone, "z-"+m.Name)
+				}
 				if n != m.Name || !nestedEq(expectNested(m.Tags), e.Ext.Tags) {
 					c.Violationf("C16 entity state differs from the model", map[string]any{"history": tailC16(hist, 5), "id": id}, "entity %s: name %q/%q tags %v/%v", id, n, m.Name, e.Ext.Tags, m.Tags)
 				}
@@ -630,6 +635,9 @@ func checker(fields []string) boltz.FieldChecker {
 	m := boltz.MapFieldChecker{}
 	for _, f := range fields {
 		m[f] = struct{}{}
+		if f == "name" {
+			m["zone"] = struct{}{} // the nested field follows the name
+		}
 	}
 	return m
 }
